@@ -10,7 +10,11 @@ use crate::rprint;
 use crate::util::{self, Tape};
 use serde_json::json;
 
-fn report(property: &str, v: Violation) -> ! {
+fn report(property: &str, v: Violation) {
+    if v.message.starts_with("SKIP:") {
+        // the check declined the case (outcome left to the implementation)
+        return;
+    }
     if v.message.starts_with("HARNESS:") {
         // a harness problem is not a finding of the fuzzer: still stop, but say so
         eprintln!("HARNESS problem in fuzz target: {}", v.message);
